@@ -33,19 +33,21 @@ import (
 )
 
 type vkShapeCase struct {
-	Shape  string `json:"shape"` // pos, pos+ns, al+pos, al+nodata, al2+nodata, al+nx, nodata, nx
-	A      uint32 `json:"a"`     // TTL of the answer RRset (A) / of the NS+glue for pos+ns
-	C      uint32 `json:"c"`     // TTL of the CNAME(s)
-	S      uint32 `json:"s"`     // TTL of the SOA record
-	M      uint32 `json:"m"`     // SOA MINIMUM
-	Sig    int    `json:"sig"`   // seconds until the RRSIG (over the A RRset, or over the SOA) expires; 0 = unsigned
-	Probe  int    `json:"probe"` // seconds the clock is advanced before the probes
+	Shape  string `json:"shape"`            // pos, pos+ns, al+pos, al+nodata, al2+nodata, al+nx, nodata, nx
+	A      uint32 `json:"a"`                // TTL of the answer RRset (A) / of the NS+glue for pos+ns
+	C      uint32 `json:"c"`                // TTL of the CNAME(s)
+	S      uint32 `json:"s"`                // TTL of the SOA record
+	M      uint32 `json:"m"`                // SOA MINIMUM
+	Sig    int    `json:"sig"`              // seconds until the RRSIG (over the A RRset, or over the SOA) expires; 0 = unsigned
+	SigTTL uint32 `json:"sigttl,omitempty"` // the RRSIG records' own header TTL (0 = same as the covered RRset)
+	N      uint32 `json:"n,omitempty"`      // negative shapes: TTL of an NSEC record in the authority section (0 = none)
+	Probe  int    `json:"probe"`            // seconds the clock is advanced before the probes
 	QType  uint16 `json:"qtype"`
 	result string
 }
 
 func (c vkShapeCase) String() string {
-	return fmt.Sprintf("%s a=%d c=%d soa=%d/min=%d sig=%d probe@%ds", c.Shape, c.A, c.C, c.S, c.M, c.Sig, c.Probe)
+	return fmt.Sprintf("%s a=%d c=%d soa=%d/min=%d sig=%d sigttl=%d nsec=%d probe@%ds", c.Shape, c.A, c.C, c.S, c.M, c.Sig, c.SigTTL, c.N, c.Probe)
 }
 
 func (c vkShapeCase) negative() bool {
@@ -101,6 +103,21 @@ func (c vkShapeCase) response(req *dns.Msg, now time.Time) *dns.Msg {
 	}
 	soa := &dns.SOA{Hdr: hdr("u.", dns.TypeSOA, c.S), Ns: "ns.u.", Mbox: "h.u.", Serial: 1, Refresh: 1, Retry: 1, Expire: 1, Minttl: c.M}
 	exp := now.Add(time.Duration(c.Sig) * time.Second)
+	vkSig := func(owner string, covered uint16, ttl uint32, exp time.Time) *dns.RRSIG {
+		sig := vkSig(owner, covered, ttl, exp)
+		if c.SigTTL != 0 {
+			sig.Hdr.Ttl = c.SigTTL
+		}
+		return sig
+	}
+	defer func() {
+		if c.N != 0 && c.negative() {
+			m.Ns = append(m.Ns, &dns.NSEC{Hdr: hdr("sh.t.", dns.TypeNSEC, c.N), NextDomain: "si.t.", TypeBitMap: []uint16{dns.TypeTXT, dns.TypeRRSIG, dns.TypeNSEC}})
+			if c.Sig > 0 {
+				m.Ns = append(m.Ns, vkSig("sh.t.", dns.TypeNSEC, c.N, exp))
+			}
+		}
+	}()
 	switch c.Shape {
 	case "pos":
 		m.Answer = []dns.RR{a(q.Name)}
@@ -154,9 +171,13 @@ func (c vkShapeCase) pieceOf(rr dns.RR) string {
 	h := rr.Header()
 	t := h.Rrtype
 	if sig, ok := rr.(*dns.RRSIG); ok {
-		t = sig.TypeCovered
+		covered := *sig
+		covered.Hdr.Rrtype = sig.TypeCovered
+		return "sig:" + c.pieceOf(&dns.RFC3597{Hdr: covered.Hdr})
 	}
 	switch t {
+	case dns.TypeNSEC:
+		return "nsec"
 	case dns.TypeCNAME:
 		return "cname:" + strings.ToLower(h.Name)
 	case dns.TypeSOA:
@@ -188,7 +209,18 @@ func (c vkShapeCase) pieceLife(piece string) time.Duration {
 	if c.Sig > 0 {
 		sig = uint32(c.Sig)
 	}
+	if strings.HasPrefix(piece, "sig:") {
+		l := c.pieceLife(strings.TrimPrefix(piece, "sig:"))
+		if c.SigTTL != 0 {
+			if d := clampTTL(time.Duration(c.SigTTL) * time.Second); d < l {
+				l = d
+			}
+		}
+		return l
+	}
 	switch {
+	case piece == "nsec":
+		return lo(c.N, sig)
 	case piece == "a" && c.Shape == "pos+ns":
 		return lo(300)
 	case piece == "a":
@@ -339,15 +371,30 @@ func TestVerifC04Shapes(t *testing.T) {
 								continue
 							}
 							base := vkShapeCase{Shape: sh, A: a, C: cn, S: s, M: m, Sig: sig, QType: dns.TypeA}
-							// probe on each side of every boundary the parameters define
-							seen := map[int]bool{}
-							for _, b := range []int{5, int(a), int(cn), int(s), int(m), sig} {
-								for _, p := range []int{b - 1, b + 1} {
-									if p >= 1 && !seen[p] {
-										seen[p] = true
-										cs := base
-										cs.Probe = p
-										cases = append(cases, cs)
+							variants := []vkShapeCase{base}
+							if sig != 0 {
+								v := base
+								v.SigTTL = 2
+								variants = append(variants, v)
+							}
+							if neg {
+								for _, n := range []uint32{2, 30} {
+									v := base
+									v.N = n
+									variants = append(variants, v)
+								}
+							}
+							for _, base := range variants {
+								// probe on each side of every boundary the parameters define
+								seen := map[int]bool{}
+								for _, b := range []int{5, int(a), int(cn), int(s), int(m), sig, int(base.N)} {
+									for _, p := range []int{b - 1, b + 1} {
+										if p >= 1 && !seen[p] {
+											seen[p] = true
+											cs := base
+											cs.Probe = p
+											cases = append(cases, cs)
+										}
 									}
 								}
 							}
